@@ -26,26 +26,26 @@ type taintCfg struct {
 }
 
 type taintSummary struct {
-	paramToRet  map[int]bool // param i taints some result
+	paramToRet   map[int]bool // param i taints some result
 	retIntrinsic bool         // some result carries an intrinsic source
-	paramToSink map[int]string
-	retWhy      string
+	paramToSink  map[int]string
+	retWhy       string
 }
 
 type taintHit struct {
-	fn    *ssa.Function
-	site  ssa.Instruction
-	sink  string
-	why   string
-	kind  string // "flow" | "type"
-	arg   string
+	fn   *ssa.Function
+	site ssa.Instruction
+	sink string
+	why  string
+	kind string // "flow" | "type"
+	arg  string
 }
 
 type taintAn struct {
-	cfg  *taintCfg
-	sums map[*ssa.Function]*taintSummary
-	hits map[string]taintHit
-	fns  []*ssa.Function
+	cfg    *taintCfg
+	sums   map[*ssa.Function]*taintSummary
+	hits   map[string]taintHit
+	fns    []*ssa.Function
 	nSinks int
 }
 
@@ -59,7 +59,9 @@ var propRe = compileReMust(`^(encoding/hex\.EncodeToString|encoding/hex\.Dump|en
 
 func compileReMust(p string) *regexpT { return &regexpT{compileRe(p)} }
 
-type regexpT struct{ re interface{ MatchString(string) bool } }
+type regexpT struct {
+	re interface{ MatchString(string) bool }
+}
 
 func (r *regexpT) Match(s string) bool { return r.re.MatchString(s) }
 
